@@ -378,8 +378,10 @@ def make_start(env, D, path, st, rng):
         import zlib
         if zlib.crc32(repr(sorted(st.items(), key=str)).encode()) % 4 == 0:
             # the handle comes in the default mode r and is made writable by assignment afterwards
-            ra = D.asraggedarray(path, [m.copy() for m in model], dtype=dtype if st.get('dtypearg') else None,
-                                 indextype=st['indextype'], metadata=md)
+            D.asraggedarray(path, [m.copy() for m in model], dtype=dtype if st.get('dtypearg') else None,
+                            indextype=st['indextype'], metadata=md, accessmode='r')
+            ra = D.RaggedArray(path)        # default mode: r
+            assert ra.accessmode == 'r'
             ra.accessmode = 'r+'
         else:
             ra = D.asraggedarray(path, [m.copy() for m in model], dtype=dtype if st.get('dtypearg') else None,
